@@ -357,6 +357,11 @@ func runC09(ctx *Ctx) {
 	if ctx.Want(n + 50) {
 		defer c09Binary(ctx, n+50)
 	}
+	for drv := 0; drv < 2; drv++ {
+		if ctx.Want(n + 60 + drv) {
+			c09InflightReconnect(ctx, n+60+drv, drv)
+		}
+	}
 	forEachCase(ctx, n, func(i int, rng *rand.Rand) {
 		drv := i % 2
 		w := newWorld(worldCfg{Drv: drv, Price: "1000", IntervalNs: 60e9, Settle: true})
